@@ -1,5 +1,7 @@
 package main
 
+// Run-time values of the interpreter: concrete shapes, symbolic leaves.
+
 import (
 	"fmt"
 	"go/types"
@@ -10,26 +12,31 @@ import (
 type Value interface{}
 
 type Slot struct {
-	typ  types.Type
-	val  Value
-	kids []*Slot
-	init bool // created during package init (write barrier)
+	typ    types.Type
+	val    Value
+	kids   []*Slot // struct fields / array elements (array elements are created lazily)
+	init   bool    // created during package init (writes are undo-logged)
 	parent *Slot
-	pidx int
+	pidx   int
+	e      *Engine
+	ext    Value // model payload (math/big.Int -> *Term of sort Int, time.Time -> *timeModel)
 }
 
 type Ptr struct{ s *Slot } // s==nil: nil pointer
 type SymPtr struct {
-	base *Slot
+	base   *Slot
 	off, n int
-	idx *Term
+	idx    *Term
 }
 type SliceV struct {
 	arr           *Slot // array slot (kids = elements)
 	off, len, cap int
 }
 type StrV struct{ b []*Term }
-type StructV struct{ f []Value }
+type StructV struct {
+	f   []Value
+	ext Value
+}
 type ArrayV struct{ e []Value }
 type Tuple []Value
 type Iface struct {
@@ -60,18 +67,20 @@ func (e *Engine) zero(t types.Type) Value {
 	case *types.Basic:
 		switch {
 		case u.Info()&types.IsBoolean != 0:
-			return e.b.Bool(false)
+			return e.b.ff
 		case u.Info()&types.IsInteger != 0:
 			return e.b.BVu(0, intWidth(u))
 		case u.Info()&types.IsString != 0:
-			return &StrV{}
+			return emptyStr
 		case u.Info()&types.IsFloat != 0:
 			return e.b.BVu(0, floatWidth(u))
 		case u.Kind() == types.UnsafePointer:
-			return &Ptr{}
+			return nilPtr
+		case u.Kind() == types.UntypedNil:
+			return nilPtr
 		}
 	case *types.Pointer:
-		return &Ptr{}
+		return nilPtr
 	case *types.Slice:
 		return &SliceV{}
 	case *types.Struct:
@@ -79,7 +88,7 @@ func (e *Engine) zero(t types.Type) Value {
 		for i := range f {
 			f[i] = e.zero(u.Field(i).Type())
 		}
-		return &StructV{f}
+		return &StructV{f: f}
 	case *types.Array:
 		el := make([]Value, u.Len())
 		for i := range el {
@@ -87,7 +96,7 @@ func (e *Engine) zero(t types.Type) Value {
 		}
 		return &ArrayV{el}
 	case *types.Interface:
-		return &Iface{}
+		return nilIface
 	case *types.Map:
 		return &MapV{}
 	case *types.Signature:
@@ -103,6 +112,10 @@ func (e *Engine) zero(t types.Type) Value {
 	}
 	panic(unsupported(fmt.Sprintf("zero value of %v", t)))
 }
+
+var emptyStr = &StrV{}
+var nilPtr = &Ptr{}
+var nilIface = &Iface{}
 
 func intWidth(b *types.Basic) int {
 	switch b.Kind() {
@@ -128,9 +141,13 @@ func isSigned(t types.Type) bool {
 	b, ok := t.Underlying().(*types.Basic)
 	return ok && b.Info()&types.IsInteger != 0 && b.Info()&types.IsUnsigned == 0
 }
+func isFloat(t types.Type) bool {
+	b, ok := t.Underlying().(*types.Basic)
+	return ok && b.Info()&types.IsFloat != 0
+}
 
 func (e *Engine) newSlot(t types.Type) *Slot {
-	s := &Slot{typ: t, init: e.inInit}
+	s := &Slot{typ: t, init: e.inInit, e: e}
 	switch u := t.Underlying().(type) {
 	case *types.Struct:
 		s.kids = make([]*Slot, u.NumFields())
@@ -139,10 +156,6 @@ func (e *Engine) newSlot(t types.Type) *Slot {
 		}
 	case *types.Array:
 		s.kids = make([]*Slot, u.Len())
-		for i := range s.kids {
-			s.kids[i] = e.newSlot(u.Elem())
-			s.kids[i].parent, s.kids[i].pidx = s, i
-		}
 	default:
 		s.val = e.zero(t)
 	}
@@ -150,31 +163,44 @@ func (e *Engine) newSlot(t types.Type) *Slot {
 }
 
 func (e *Engine) newArraySlot(elem types.Type, n int) *Slot {
-	s := &Slot{typ: types.NewArray(elem, int64(n)), init: e.inInit}
-	s.kids = make([]*Slot, n)
-	for i := range s.kids {
-		s.kids[i] = e.newSlot(elem)
-		s.kids[i].parent, s.kids[i].pidx = s, i
+	return &Slot{typ: types.NewArray(elem, int64(n)), init: e.inInit, e: e, kids: make([]*Slot, n)}
+}
+
+// kid returns the i-th element/field slot, creating array elements on demand.
+func (s *Slot) kid(i int) *Slot {
+	k := s.kids[i]
+	if k == nil {
+		at := s.typ.Underlying().(*types.Array)
+		k = s.e.newSlot(at.Elem())
+		k.init = s.init
+		k.parent, k.pidx = s, i
+		s.kids[i] = k
 	}
-	return s
+	return k
 }
 
 func (e *Engine) load(s *Slot) Value {
-	if s.kids != nil || isAggregate(s.typ) {
-		switch s.typ.Underlying().(type) {
-		case *types.Struct:
-			f := make([]Value, len(s.kids))
-			for i, k := range s.kids {
-				f[i] = e.load(k)
-			}
-			return &StructV{f}
-		case *types.Array:
-			el := make([]Value, len(s.kids))
-			for i, k := range s.kids {
+	switch u := s.typ.Underlying().(type) {
+	case *types.Struct:
+		f := make([]Value, len(s.kids))
+		for i, k := range s.kids {
+			f[i] = e.load(k)
+		}
+		return &StructV{f: f, ext: s.ext}
+	case *types.Array:
+		el := make([]Value, len(s.kids))
+		var z Value
+		for i, k := range s.kids {
+			if k == nil {
+				if z == nil || isAggregate(u.Elem()) {
+					z = e.zero(u.Elem())
+				}
+				el[i] = z
+			} else {
 				el[i] = e.load(k)
 			}
-			return &ArrayV{el}
 		}
+		return &ArrayV{el}
 	}
 	return s.val
 }
@@ -187,21 +213,38 @@ func isAggregate(t types.Type) bool {
 	return false
 }
 
+type undoRec struct {
+	s   *Slot
+	val Value
+	ext Value
+}
+
 func (e *Engine) store(s *Slot, v Value) {
-	if s.init && !e.inInit {
-		e.initWrites++
-	}
 	switch x := v.(type) {
 	case *StructV:
 		for i, k := range s.kids {
 			e.store(k, x.f[i])
 		}
+		if s.init && !e.inInit {
+			e.undo = append(e.undo, undoRec{s, s.val, s.ext})
+		}
+		s.ext = x.ext
 		return
 	case *ArrayV:
-		for i, k := range s.kids {
-			e.store(k, x.e[i])
+		for i := range s.kids {
+			e.store(s.kid(i), x.e[i])
 		}
 		return
 	}
+	if s.init && !e.inInit {
+		e.undo = append(e.undo, undoRec{s, s.val, s.ext})
+	}
 	s.val = v
+}
+
+func (e *Engine) setExt(s *Slot, v Value) {
+	if s.init && !e.inInit {
+		e.undo = append(e.undo, undoRec{s, s.val, s.ext})
+	}
+	s.ext = v
 }
